@@ -196,7 +196,7 @@ def text_formats(ctx, case, x, Cls, built, src, key):
     if hasattr(Cls, 'to_yaml'):
         try:
             txt = x.to_yaml()
-            carriable = yaml.safe_load(txt) == jd and not _has_nan(jd)
+            carriable = _same_doc(yaml.safe_load(txt), jd) and not _has_nan(jd)
         except Exception:
             carriable = False
         ctx.count('yaml_carriable' if carriable else 'yaml_not_carriable')
@@ -205,7 +205,7 @@ def text_formats(ctx, case, x, Cls, built, src, key):
     if hasattr(Cls, 'to_toml'):
         try:
             txt = x.to_toml()
-            carriable = tomllib.loads(txt) == jd and not _has_nan(jd) and not isinstance(jd.get('items'), list)
+            carriable = _same_doc(tomllib.loads(txt), jd) and not _has_nan(jd) and not isinstance(jd.get('items'), list)
         except Exception:
             carriable = False
         ctx.count('toml_carriable' if carriable else 'toml_not_carriable')
@@ -219,6 +219,15 @@ def text_formats(ctx, case, x, Cls, built, src, key):
             check_rt(ctx, 'roundtrip:json-file', case, load_outcome(lambda: Cls.from_json_file(path)), x, src, key)
         finally:
             os.unlink(path)
+
+
+def _same_doc(a, b):
+    """does the text carry the document, *including the order of keys* (an OrderedDict field depends on it; TOML writes
+    scalar entries before tables)"""
+    try:
+        return a == b and json.dumps(a) == json.dumps(b)
+    except Exception:
+        return False
 
 
 def _has_nan(v):
